@@ -31,7 +31,22 @@ def _worker_run(task, timeout):
     try:
         t0 = time.time()
         try:
-            out = _CHECK.run_task(task)
+            if getattr(_CHECK, 'ISOLATE_TASKS', False):
+                # one task = one simulated process lifetime: it runs in a
+                # fork of this (initialised, otherwise unused) worker, so
+                # what a task sees never depends on which tasks the worker
+                # ran before
+                from sim.zygote import _run_chain_forked
+                kind, val = _run_chain_forked(
+                    lambda st, t: _CHECK.run_task(t), None, task,
+                    max(5, int(timeout) - 5))
+                if kind != 'ok':
+                    return {'harness_error': 'task %r: %s: %s'
+                            % (task.get('id'), kind, val),
+                            'task': task.get('id')}
+                out = val
+            else:
+                out = _CHECK.run_task(task)
         except BaseException as exc:  # harness failure, classified apart
             return {'harness_error': ''.join(
                 traceback.format_exception(type(exc), exc, exc.__traceback__)),
